@@ -58,6 +58,32 @@ CHECKS = {
          "For every vector with <=2 (quick) / <=3 (thorough) factor departures, the getter truth table and 10 rejected configurations, both modes are run: same verdict and diagnostics, build constraint first, identical exported view, the stub type-checks against a universe that declares types only and references nothing but type names; all single departures are compiled with the tag and their constructor and getters called (must panic 'stub'); without the tag the package is excluded.",
          "trusted: go/types; the types-only twin universe",
          "3/C17", "CFG-X"),
+
+ "C03": ("exploration",
+         "bounded-exhaustive enumeration of all strings up to length L and all chunk sequences up to length k, verdict against a hand-written evaluator and run-time evaluation in a probe",
+         "Every string of length <=3 and every string containing '%' of length <=5 (quick, 45k) / <=6 (thorough) over a 10-character alphabet is built as a parameter value: the verdict must equal a hand-written evaluator's (unbalanced %, unknown function, malformed token rejected naming the token); accepted ones are packed and evaluated by GetParam on the real runtime (type and value); every chunk sequence of length <=3/<=4 over 22 chunk kinds is evaluated as parameter and as constructor argument; the %-doubling corollary is checked for every string.",
+         "trusted: hand-written chunker/evaluator (oracle); function arguments that are valid Go but not string literals are unspecified",
+         "3/C03", "CFG-X"),
+ "C04": ("exploration",
+         "bounded-exhaustive enumeration of priority vectors, decorator/tag incidence matrices and file distributions, executed in a probe against the reference model",
+         "All 6^3 priority vectors for one tag over three services (thorough 7^3 + 12^3 with two tags), all 2-decorator x 2-tag x 2-service incidence matrices with three argument sets, all 27 distributions of three decorators (and split tag lists) over three files, and all scope pairs of tagged services are generated, compiled, linked with the real runtime and compared (order and identity of injected slices, nesting order and payload of decorators) with the reference model.",
+         "trusted: fixture universe, reference model; decorator tag '*' is unspecified and not generated",
+         "3/C04", "CFG-X"),
+ "C05": ("model_checking",
+         "explicit-state BFS to fixpoint over Get/GetInContext histories of real generated containers, states read from the container's private caches; plus exhaustive DAG x edge kind x scope enumeration for the verdict",
+         "Verdict: every DAG on 3 services x 6 edge kinds x 4^3 scope assignments (thorough: all DAGs on 4 services, all kind assignments) on the real command against an own transitive-closure oracle, pairs named in diagnostics compared exactly. Histories: for ~1800 accepted configurations the cache state machine (shared cache, bag of context A, bag of context B) is explored breadth-first to fixpoint with the reference model's transition function; every one of ~237k transitions is executed on a fresh real container and all observations (identity structure of every returned object graph) and the reached state (dumped from the real container by reflection) must equal the model's.",
+         "trusted: reference model as state enumerator; canonical renumbering of identities; reflection dump of the runtime's caches",
+         "3/C05", "HIST-X"),
+ "C11": ("exploration",
+         "bounded-exhaustive enumeration of all strings up to length L per grammar position against hand-written recognisers",
+         "All strings of length <=3 (quick, 2380 x 23 positions) / <=4 (thorough) over a 13-character alphabet in each of 23 grammar positions and all token words of length <=4/<=6 in the 7 structured positions are run through the real command; the verdict must equal hand-written scanners of the documented grammar and each rejection must name the offending key; creation truth table, reserved getters, todo exemption, documented !value forms (read from docs/SERVICES.md), and all 1-/2-(3-)subsets of 25 validation-stage and 8 compile-stage defects (all reported in one run).",
+         "trusted: hand-written recognisers (no regexp); stage-wise reading of 'all violations are reported'",
+         "3/C11", "CFG-X"),
+ "C15": ("model_checking",
+         "explicit-state BFS (depth-bounded, <=2 overrides) over GetParam/Get/OverrideParam/OverrideService histories of real generated containers",
+         "All 16 todo subsets must be accepted. For 4 subsets the state machine (parameter cache, service cache, current overrides) is explored breadth-first to depth 4 (quick, ~12.7k transitions) / 5 (thorough) over 15 operations; every transition is executed on a fresh real container; compared: todo errors, values seen by dependants not yet constructed at override time, laziness (zero function calls after construction, counters afterwards), reached cache state. Observations the statement leaves open (dependants constructed before the override) are masked.",
+         "trusted: reference model as state enumerator; masking rule for unspecified observations",
+         "3/C15", "HIST-X"),
 }
 
 NOT_YET = {
